@@ -10,6 +10,8 @@ package main
 // admitted where the documentation allows one and decided by the observed result.
 
 import (
+	"strings"
+
 	acme "github.com/squadracorsepolito/acmelib"
 )
 
@@ -314,7 +316,7 @@ func (ex Expect) verdict(failed bool, got string) string {
 		return ""
 	}
 	for _, r := range ex.Refusals {
-		if r == got {
+		if r == got || (strings.HasPrefix(r, "Layout") && strings.HasPrefix(got, "Layout")) {
 			return ""
 		}
 	}
